@@ -18,10 +18,10 @@ namespace State
     clock by the entry's blocking delay), then `None`. Stops early when `_process_rx` asks for an
     immediate tx pass. -/
 def rxLoop (s : State) (st : Stats) : List (Nat × CanMsg) → State × Stats
-  | [] => ({ s with inbox := [] }.checkTimeoutsRx, st)
+  | [] => ((({ s with inbox := [] } : State).emit (.rxNone s.now)).checkTimeoutsRx, st)
   | (dt, m) :: rest =>
     let s := { s with inbox := rest, now := s.now + dt }
-    let s := s.checkTimeoutsRx
+    let s := (s.emit (.rx s.now m)).checkTimeoutsRx
     let st := { st with received := st.received + 1 }
     if s.addr.rx.isForMe m then
       let st := { st with processed := st.processed + 1 }
